@@ -641,7 +641,7 @@ class SimulateOde(DeterministicOde):
                     
         '''
 
-        dX=np.array(dX)   # convert to numpy array so we can interpolate between timepoints
+        dX=np.array(dX).reshape(-1, self.num_events)   # convert to numpy array so we can interpolate between timepoints
 
         dims=dX.shape         # Get dimensions of data (timepoints x n_trans)
         n_trans=dims[1]
